@@ -69,7 +69,10 @@ func (g *c38Gen) pick(path string, n int) int {
 	return 0
 }
 
-func bigFrom(s string) sdk.BigInt { b, _ := new(big.Int).SetString(s, 10); return sdk.NewIntFromBigInt(b) }
+func bigFrom(s string) sdk.BigInt {
+	b, _ := new(big.Int).SetString(s, 10)
+	return sdk.NewIntFromBigInt(b)
+}
 
 func (g *c38Gen) build(t reflect.Type, path string) reflect.Value {
 	switch t {
